@@ -2459,11 +2459,21 @@ func newRepo(uuid dvid.UUID, v dvid.VersionID, id dvid.RepoID, passcode string) 
 }
 
 func (r *repoT) branchHeads() map[string]dvid.UUID {
-	branchToUUID := make(map[string]dvid.UUID)
+	// The head of a branch is the last node that newVersion() created on it, which is how
+	// the running server tracks it.  A head may have children on other branches, and merge
+	// children never move a head, so looking for DAG leaves is not enough.
+	heads := make(map[string]*nodeT)
 	for _, node := range r.dag.nodes {
-		if len(node.children) == 0 {
-			branchToUUID[node.branch] = node.uuid
+		if len(node.parents) > 1 {
+			continue
 		}
+		if cur, found := heads[node.branch]; !found || node.version > cur.version {
+			heads[node.branch] = node
+		}
+	}
+	branchToUUID := make(map[string]dvid.UUID, len(heads))
+	for branch, node := range heads {
+		branchToUUID[branch] = node.uuid
 	}
 	return branchToUUID
 }
